@@ -1,9 +1,10 @@
 (* C05 — local and exported variables do not leak beyond their scope.
-   Proofs: proofs/FrameFacts.v. *)
+   Proofs: proofs/FrameFacts.v (environments), proofs/StepFrame.v (statements). *)
 From Coq Require Import Ascii String List NArith.
 Import ListNotations.
 Require Import Laze.model.Base Laze.model.Env Laze.model.Allow Laze.model.Ninja Laze.model.Ctx
-        Laze.model.Resolver Laze.model.Imports Laze.proofs.FrameFacts.
+        Laze.model.Resolver Laze.model.Imports Laze.model.Generate
+        Laze.proofs.FrameFacts Laze.proofs.DownloadOrder Laze.proofs.StepFrame.
 Open Scope list_scope.
 
 (* A module's environment (what its compile commands see) is computed from the build's global
@@ -30,3 +31,90 @@ Theorem C05_frame : forall genv ms provs self ms' provs' self',
   rmap fst (build_env genv ms provs self) = rmap fst (build_env genv ms' provs' self').
 Proof. exact module_env_frame. Qed.
 Print Assumptions C05_frame.
+
+(* --- statements --- *)
+(* Two runs of the module loop of one (builder, app) — before and after an edit — whose build orders
+   are related position by position: the same module names, source directories and downloads; every
+   module OUTSIDE a set U (the edited module and its users) is the very same module with the very
+   same environment and build deps (C05_frame), reads the table of exported files only at keys
+   outside U, and sees the same global build deps unless it is one itself. Then for a module outside
+   U, at any position, the loop emits THE SAME LIST of statements and objects in both runs — commands,
+   object paths and rule names, byte for byte — whatever the modules in U emitted before it; and all
+   of these statements are in the statement set of both builds. *)
+Theorem C05_statements_frame :
+  forall H EV rules merge_opts objdir bn an ms ms' gdeps gdeps' (U : str -> Prop),
+  map m_name ms' = map m_name ms ->
+  forall l l' fa fb pre a post,
+  Forall2 (R gdeps gdeps' U) l l' ->
+  fold_left (fun acc mm => rbind acc (fun st0 => module_step H EV rules merge_opts ms gdeps objdir bn an st0 mm)) l
+            (Ok {| ls_entries := []; ls_objects := []; ls_depfiles := []; ls_dldirs := [] |}) = Ok fa ->
+  fold_left (fun acc mm => rbind acc (fun st0 => module_step H EV rules merge_opts ms' gdeps' objdir bn an st0 mm)) l'
+            (Ok {| ls_entries := []; ls_objects := []; ls_depfiles := []; ls_dldirs := [] |}) = Ok fb ->
+  l = pre ++ a :: post -> ~ U (m_name (fst (fst a))) ->
+  exists pre' post' sa0 sa1 sb0 sb1 L O,
+    l' = pre' ++ a :: post' /\ length pre' = length pre /\
+    fold_left (fun acc mm => rbind acc (fun st0 => module_step H EV rules merge_opts ms gdeps objdir bn an st0 mm)) pre
+              (Ok {| ls_entries := []; ls_objects := []; ls_depfiles := []; ls_dldirs := [] |}) = Ok sa0 /\
+    module_step H EV rules merge_opts ms gdeps objdir bn an sa0 a = Ok sa1 /\
+    fold_left (fun acc mm => rbind acc (fun st0 => module_step H EV rules merge_opts ms' gdeps' objdir bn an st0 mm)) pre'
+              (Ok {| ls_entries := []; ls_objects := []; ls_depfiles := []; ls_dldirs := [] |}) = Ok sb0 /\
+    module_step H EV rules merge_opts ms' gdeps' objdir bn an sb0 a = Ok sb1 /\
+    emits sa0 sa1 L O /\ emits sb0 sb1 L O /\
+    forall q, In q L -> has_text fa q /\ has_text fb q.
+Proof.
+  intros H EV rules merge_opts objdir bn an ms ms' gdeps gdeps' U Hn l l' fa fb pre a post.
+  exact (loop_statements_frame H EV rules merge_opts objdir bn an ms ms' gdeps gdeps' U Hn l l' fa fb pre a post).
+Qed.
+Print Assumptions C05_statements_frame.
+
+(* what one step emits does not depend on the statements and objects accumulated so far: the step on
+   the state with both lists emptied emits the same, and the real state is the accumulated one
+   extended by it *)
+Theorem C05_step_emits : forall H EV rules merge_opts ms gdeps objdir bn an s m menv mdeps s',
+  module_step H EV rules merge_opts ms gdeps objdir bn an s (m, menv, mdeps) = Ok s' ->
+  exists r', module_step H EV rules merge_opts ms gdeps objdir bn an
+               {| ls_entries := []; ls_objects := []; ls_depfiles := ls_depfiles s; ls_dldirs := ls_dldirs s |}
+               (m, menv, mdeps) = Ok r' /\
+             emits s s' (ls_entries r') (ls_objects r') /\
+             ls_dldirs s' = ls_dldirs r' /\ (forall n, alookup n (ls_depfiles s') = alookup n (ls_depfiles r')).
+Proof.
+  intros H EV rules merge_opts ms gdeps objdir bn an s m menv mdeps s' HS.
+  assert (S0 : Sim (fun _ => True) (ls_entries s) (ls_objects s) s
+                   {| ls_entries := []; ls_objects := []; ls_depfiles := ls_depfiles s; ls_dldirs := ls_dldirs s |}).
+  { unfold Sim. cbn. split; [reflexivity|]. split; [rewrite app_nil_r; reflexivity|]. split; [reflexivity|intros; reflexivity]. }
+  destruct (module_step_sim H EV (fun _ => True) _ _ _ _ _ _ _ _ _ _ _ _ _ _ _ HS S0) as (r' & Er & S1).
+  - split; [exact Logic.I|]. split; intros; exact Logic.I.
+  - exists r'. split; [exact Er|]. destruct S1 as (A & B & C & D). split; [split; assumption|]. split; [exact C|].
+    intros n. apply D. exact Logic.I.
+Qed.
+Print Assumptions C05_step_emits.
+
+(* a step writes the exported-files table at its own module's key only *)
+Theorem C05_exports_own_key : forall H EV rules merge_opts ms gdeps objdir bn an s m menv mdeps s',
+  module_step H EV rules merge_opts ms gdeps objdir bn an s (m, menv, mdeps) = Ok s' ->
+  forall n, n <> m_name m -> alookup n (ls_depfiles s') = alookup n (ls_depfiles s).
+Proof. exact module_step_dframe. Qed.
+Print Assumptions C05_exports_own_key.
+
+(* non-vacuity: an edit of module x's local env; y neither uses x nor any build dep *)
+Example C05_ex_related :
+  let x := module_new (S_ "x") None in
+  let x' := {| m_name := m_name x; m_context_name := m_context_name x; m_selects := m_selects x; m_imports := m_imports x;
+               m_provides := m_provides x; m_conflicts := m_conflicts x; m_notify_all := m_notify_all x;
+               m_blocklist := m_blocklist x; m_allowlist := m_allowlist x; m_sources := m_sources x;
+               m_sources_optional := m_sources_optional x; m_tasks := m_tasks x; m_build := m_build x;
+               m_env_local := [(S_ "CFLAGS", Single (S_ "-Dedited"))]; m_env_export := m_env_export x;
+               m_env_global := m_env_global x; m_env_early := m_env_early x; m_relpath := m_relpath x;
+               m_srcdir := m_srcdir x; m_build_dep_files := m_build_dep_files x; m_is_build_dep := m_is_build_dep x;
+               m_is_global_build_dep := m_is_global_build_dep x; m_is_binary := m_is_binary x;
+               m_context_id := m_context_id x; m_defined_in := m_defined_in x; m_download := m_download x |} in
+  let y := module_new (S_ "y") None in
+  Forall2 (R [] [] (fun n => n = S_ "x"))
+          [(x, [], None); (y, [], None)] [(x', [(S_ "CFLAGS", Single (S_ "-Dedited"))], None); (y, [], None)].
+Proof.
+  cbv zeta. constructor; [|constructor; [|constructor]].
+  - cbn. split; [reflexivity|]. split; [reflexivity|]. split; [reflexivity|]. intros Hn. exfalso. apply Hn. reflexivity.
+  - cbn. split; [reflexivity|]. split; [reflexivity|]. split; [reflexivity|]. intros _.
+    split; [reflexivity|]. split; [|right; reflexivity].
+    split; [intros Hx; discriminate Hx|]. split; [intros d []|intros _ d []].
+Qed.
